@@ -9,10 +9,10 @@ Python builtins is fixed by coq/Gen/PyLib.v (plus Coq's String/N/Z/List and Base
 
 Subset: module-level functions and static/class/instance methods with positional parameters
 (defaults allowed); `return`, `if/elif/else`, assignments to local names (rebinding = shadowing
-`let`), `l[-1] = e`, `l.append(e)`, `l.pop()` on locally created lists that are never aliased;
-`and/or/not`, comparisons (by inferred type), `in`/`not in` on literal tuples and on strings,
+`let`), `l[-1] = e`, `l.append(e)`, `l.pop()`, `del l[-1]` on locally created lists that are never aliased;
+`and/or/not` (truth value of str/list/int where only the truth is used), comparisons (by inferred type), `in`/`not in` on literal tuples and on strings,
 `is None`, `+ - *` on ints, `+` on str/list, str methods startswith/endswith/find/split/join/
-strip/lstrip/rstrip, `len`, `str`, slices `s[a:b]`, constant indices, f-strings of simple
+strip/lstrip/rstrip, split/rsplit(sep, 1), partition/rpartition, `len`, `str`, slices `s[a:b]`, constant indices, f-strings of simple
 expressions, `"..{}..".format(a, ..)` on a literal with plain `{}` fields, generator expressions /
 list comprehensions as the sole argument of join/any/all/list, tuples, list literals, `any/all/map`, list comprehensions, conditional
 expressions, attribute access on declared records, module/class constants, calls to other
@@ -20,7 +20,8 @@ functions of the same module, declared casts (identity) and declared opaque func
 (become parameters), declared extern pure functions (mapped to a Coq function).  Functions that
 `raise X(msg)` / `assert c` (statements in sequence, not inside loops or try) return
 `(string * string) + T` (`inl (exception class name, message)`; a procedure has T = unit); a call
-of such a function as a statement or `x = f(..)` is a monadic bind.  `if x is None` / `is not None`
+of such a function as a statement or `x = f(..)` is a monadic bind; a nested
+`def err(msg: str): return SomeError(<message>)` is allowed as a builder used in `raise err(..)`.  `if x is None` / `is not None`
 on an Optional name or attribute chain becomes a `match` that narrows x in the Some branch (also
 inside `x is None or ...` / `x is not None and ...`).  `super().m(...)` resolves through the
 spec's `bases`; functions of `extra_sources` modules can be called.  Types: str->string, int->Z (N where declared), bool, List->list,
@@ -37,6 +38,7 @@ from dataclasses import dataclass, field
 from typing import Any, Dict, List, Optional, Tuple
 
 STR, BOOL, Z, N = "str", "bool", "Z", "N"
+TRUTH = "truth"          # `want` marker: only the truth value of the expression is used
 RESERVED = set("""as at cofix else end exists exists2 fix for forall fun if IF in let match mod
 Prop return Set then Type using where with andb orb negb true false Some None fst snd pair nil cons
 """.split())
@@ -263,7 +265,7 @@ class Tr:
             return self._raising[qual]
         fn, cls, _ = self.funcs[qual]
         r = False
-        for n in ast.walk(fn):
+        for n in walk(fn):
             if isinstance(n, (ast.Raise, ast.Assert)):
                 r = True
             elif isinstance(n, ast.Call):
@@ -281,7 +283,7 @@ class Tr:
 
     def has_exit(self, stmts, env) -> bool:
         return any(isinstance(n, (ast.Return, ast.Raise, ast.Assert)) or self.raising_call(n, env)
-                   for s in stmts for n in ast.walk(s))
+                   for s in stmts for n in walk(s, False))
 
     def fresh(self, hint: str) -> str:
         self.nfresh += 1
@@ -340,9 +342,7 @@ class Tr:
         self.busy.append(qual)
         body = [s for s in fn.body if not (isinstance(s, ast.Expr) and isinstance(s.value, ast.Constant) and isinstance(s.value.value, str))]
         env.raises = self.raising(qual)
-        env.proc = not any(isinstance(n, ast.Return) and n.value is not None for s in body for n in ast.walk(s))
-        if env.proc and any(isinstance(n, ast.Return) for s in body for n in ast.walk(s)):
-            self.no(fn, "bare return")
+        env.proc = not any(isinstance(n, ast.Return) and n.value is not None for s in body for n in walk(s, False))
         if env.proc and env.raises:
             env.ret = "unit"
         env.mutated = mutated_names(body)
@@ -391,6 +391,13 @@ class Tr:
             return final(env)
         s, rest = stmts[0], stmts[1:]
         env.last = s
+        if isinstance(s, ast.FunctionDef):
+            self.local_raiser(s, env)
+            return self.block(rest, env, final)
+        if isinstance(s, ast.Return) and s.value is None and final is None and env.root.proc and env.root.raises:
+            if rest:
+                self.no(rest[0], "unreachable statement after return")
+            return "(inr tt)"
         if isinstance(s, ast.Return):
             if s.value is None:
                 self.no(s, "bare return")
@@ -416,6 +423,8 @@ class Tr:
                 exc = s.exc
                 if exc is None or s.cause is not None:
                     self.no(s, "bare raise / raise ... from ...")
+                if isinstance(exc, ast.Call) and isinstance(exc.func, ast.Name) and exc.func.id in env.raisers:
+                    return self.raise_local(s, exc, env, rest)
                 if isinstance(exc, ast.Call) and isinstance(exc.func, ast.Name) and not exc.keywords:
                     cls_name, margs = exc.func.id, exc.args
                 elif isinstance(exc, ast.Name):
@@ -494,6 +503,43 @@ class Tr:
         bind = self.simple(s, env)
         return f"let {bind[0]} := {bind[1]} in\n  {self.block(rest, env, final)}"
 
+    def local_raiser(self, fn, env):
+        """`def err(msg: str): return SomeError(<str expr>)` inside a function: allowed only as a
+        builder of exceptions that are raised (`raise err(..)`); any other use of the name is unknown."""
+        a = fn.args
+        body = [x for x in fn.body if not (isinstance(x, ast.Expr) and isinstance(x.value, ast.Constant))]
+        ok = (not fn.decorator_list and not (a.vararg or a.kwarg or a.kwonlyargs or a.posonlyargs or a.defaults)
+              and len(body) == 1 and isinstance(body[0], ast.Return) and isinstance(body[0].value, ast.Call)
+              and isinstance(body[0].value.func, ast.Name) and not body[0].value.keywords
+              and len(body[0].value.args) <= 1 and all(p.annotation is not None for p in a.args))
+        if not ok or not env.root.raises:
+            self.no(fn, "nested function (only `def f(typed params): return ExceptionClass(message)` used in `raise f(..)`)")
+        cls_name = body[0].value.func.id
+        if cls_name in env.vars or cls_name in self.funcs or cls_name in self.consts or fn.name in env.vars:
+            self.no(fn, "nested function shadows a name or does not build an exception")
+        env.raisers[fn.name] = ([(p.arg, self.ann(p.annotation, p)) for p in a.args], cls_name, body[0].value.args)
+
+    def raise_local(self, s, exc, env, rest):
+        params, cls_name, margs = env.raisers[exc.func.id]
+        if exc.keywords or len(exc.args) != len(params):
+            self.no(s, "arguments of the local exception builder")
+        if rest:
+            self.no(rest[0], "unreachable statement after raise")
+        e2, lets = env.fork(), ""
+        for (pn, pt), a in zip(params, exc.args):
+            term, t = self.expr(a, env, pt)
+            if not same(t, pt):
+                self.no(a, f"argument of type {coq_type(t)} for parameter {pn} : {coq_type(pt)}")
+            lets += f"let {self.ident(pn, s)} := {term} in "
+            e2.vars[pn] = pt
+            e2.unnarrow(pn)
+        msg = '""'
+        if margs and self.spec.get("raise_messages", True):
+            msg, mt = self.expr(margs[0], e2)      # free names: the enclosing function's current bindings
+            if mt != STR:
+                self.no(s, f"exception message of type {coq_type(mt)}")
+        return f'(inl ("{cls_name}", ({lets}{msg})))'
+
     def simple(self, s, env) -> Tuple[str, str]:
         """Assignment-like statement -> (bound name/pattern, term)."""
         if isinstance(s, ast.AnnAssign) and s.value is not None and isinstance(s.target, ast.Name):
@@ -528,6 +574,14 @@ class Tr:
                     self.no(s, "element type changes")
                 self.res.partial.append(f"{self.path}:{s.lineno}: {v}[-1] = ... (IndexError on an empty list is not modelled)")
                 return env.name(v), f"(List.removelast {env.name(v)} ++ [{term}])%list"
+        if isinstance(s, ast.Delete) and len(s.targets) == 1 and isinstance(s.targets[0], ast.Subscript) \
+                and isinstance(s.targets[0].value, ast.Name) and const_int(s.targets[0].slice) == -1:
+            v = s.targets[0].value.id
+            t = env.vars.get(v)
+            if not t or t[0] != "list":
+                self.no(s, "del on something that is not a local list")
+            self.res.partial.append(f"{self.path}:{s.lineno}: del {v}[-1] (IndexError on an empty list is not modelled)")
+            return env.name(v), f"(List.removelast {env.name(v)})"
         if isinstance(s, ast.Expr) and isinstance(s.value, ast.Call) and isinstance(s.value.func, ast.Attribute) \
                 and isinstance(s.value.func.value, ast.Name) and not s.value.keywords:
             v, meth, args = s.value.func.value.id, s.value.func.attr, s.value.args
@@ -543,9 +597,23 @@ class Tr:
         self.no(s, "statement outside the supported subset")
 
     def cond(self, e, env) -> str:
+        """Truth value of e (if/assert tests, operands of `not`, of and/or in such a position):
+        bool as is, str/list by emptiness, int by != 0; anything else is refused."""
+        term, t = self.expr(e, env, TRUTH)
+        if t == BOOL:
+            return term
+        if t == STR:
+            return f'(negb (String.eqb {term} ""))'
+        if t in (Z, N):
+            return f"(negb ({t}.eqb {term} 0%{t}))"
+        if t[0] == "list":
+            return f"(negb (py_is_nil {term}))"
+        self.no(e, f"truth value of {coq_type(t)}")
+
+    def strict_bool(self, e, env) -> str:
         term, t = self.expr(e, env, BOOL)
         if t != BOOL:
-            self.no(e, f"truth value of a non-bool ({coq_type(t)})")
+            self.no(e, f"and/or with a non-bool operand ({coq_type(t)}) where its value, not its truth, is used")
         return term
 
     # ---------------------------------------------------------------- expressions
@@ -602,6 +670,7 @@ class Tr:
     def e_BoolOp(self, e, env, want):
         is_and = isinstance(e.op, ast.And)
         op = "&&" if is_and else "||"
+        operand = self.cond if want == TRUTH else self.strict_bool
 
         def narrows(v, en):
             nt = self.none_test(v, en)
@@ -609,7 +678,7 @@ class Tr:
 
         def go(values, en):
             if len(values) == 1:
-                return self.cond(values[0], en)
+                return operand(values[0], en)
             nt = narrows(values[0], en)
             if nt:
                 term, t = self.expr(nt[0], en)
@@ -619,9 +688,9 @@ class Tr:
                 e2 = en.fork()
                 e2.narrow[ast.unparse(nt[0])] = (v, t[1])
                 return f"(match {term} with None => {'false' if is_and else 'true'} | Some {v} => {go(values[1:], e2)} end)"
-            return f"({self.cond(values[0], en)} {op} {go(values[1:], en)})"
+            return f"({operand(values[0], en)} {op} {go(values[1:], en)})"
         if not any(narrows(v, env) for v in e.values[:-1]):
-            return "(" + f" {op} ".join(self.cond(v, env) for v in e.values) + ")", BOOL
+            return "(" + f" {op} ".join(operand(v, env) for v in e.values) + ")", BOOL
         return go(list(e.values), env), BOOL
 
     def e_UnaryOp(self, e, env, want):
@@ -976,6 +1045,16 @@ class Tr:
                 self.res.partial.append(f"{self.path}:{e.lineno}: .split({ast.unparse(args[0])}) (ValueError on an empty separator is not modelled)")
             ty = {"find": Z, "split": ("list", STR)}.get(meth, BOOL if meth.endswith("with") else STR)
             return f"(py_{meth} {recv} {a})", ty
+        if meth in ("split", "rsplit") and len(args) == 2 and const_int(args[1]) == 1:
+            a = sarg(0)
+            if not (isinstance(args[0], ast.Constant) and args[0].value):
+                self.res.partial.append(f"{self.path}:{e.lineno}: .{meth}({ast.unparse(args[0])}, 1) (ValueError on an empty separator is not modelled)")
+            return f"(py_{meth}1 {recv} {a})", ("list", STR)
+        if meth in ("partition", "rpartition") and len(args) == 1:
+            a = sarg(0)
+            if not (isinstance(args[0], ast.Constant) and args[0].value):
+                self.res.partial.append(f"{self.path}:{e.lineno}: .{meth}({ast.unparse(args[0])}) (ValueError on an empty separator is not modelled)")
+            return f"(py_{meth} {recv} {a})", ("tuple", [STR, STR, STR])
         if meth == "join" and len(args) == 1:
             term, t = self.listlike(args[0], env)
             if not same(t, ("list", STR)):
@@ -992,6 +1071,7 @@ class Env:
         self.root, self.bare_ok = self, False
         self.raises, self.proc = False, False
         self.narrow: Dict[str, Any] = {}
+        self.raisers: Dict[str, Any] = {}
 
     def unnarrow(self, name):
         for k in [k for k in self.narrow if re.search(rf"\b{re.escape(name)}\b", k)]:
@@ -1003,7 +1083,7 @@ class Env:
     def fork(self):
         e = Env(self.tr, self.cls, dict(self.vars))
         e.params, e.mutated, e.ret, e.root, e.bare_ok = self.params, self.mutated, self.ret, self.root, self.bare_ok
-        e.narrow = dict(self.narrow)
+        e.narrow, e.raisers = dict(self.narrow), self.raisers
         return e
 
     def allow_bare(self):
@@ -1024,8 +1104,25 @@ def const_int(e) -> Optional[int]:
     return None
 
 
+def walk(node, enter=True):
+    """ast.walk that does not descend into nested function definitions / lambdas
+    (nor into `node` itself if it is one and enter=False: a statement of a function body)."""
+    if not enter and isinstance(node, (ast.FunctionDef, ast.AsyncFunctionDef, ast.Lambda)):
+        yield node
+        return
+    todo = [node]
+    while todo:
+        n = todo.pop()
+        yield n
+        for c in ast.iter_child_nodes(n):
+            if not isinstance(c, (ast.FunctionDef, ast.AsyncFunctionDef, ast.Lambda)):
+                todo.append(c)
+            else:
+                yield c          # the definition itself is seen, its body is not
+
+
 def has_return(stmts) -> bool:
-    return any(isinstance(n, ast.Return) for s in stmts for n in ast.walk(s))
+    return any(isinstance(n, ast.Return) for s in stmts for n in walk(s, False))
 
 
 def always_returns(stmts) -> bool:
@@ -1038,7 +1135,7 @@ def always_returns(stmts) -> bool:
 def assigned(stmts) -> set:
     out = set()
     for s in stmts:
-        for n in ast.walk(s):
+        for n in walk(s, False):
             if isinstance(n, ast.Name) and isinstance(n.ctx, ast.Store):
                 out.add(n.id)
     return out | mutated_names(stmts)
@@ -1047,9 +1144,11 @@ def assigned(stmts) -> set:
 def mutated_names(stmts) -> set:
     out = set()
     for s in stmts:
-        for n in ast.walk(s):
+        for n in walk(s, False):
             if isinstance(n, ast.Subscript) and isinstance(n.ctx, ast.Store) and isinstance(n.value, ast.Name):
                 out.add(n.value.id)
+            if isinstance(n, ast.Delete):
+                out |= {t.value.id for t in n.targets if isinstance(t, ast.Subscript) and isinstance(t.value, ast.Name)}
             if isinstance(n, ast.Expr) and isinstance(n.value, ast.Call) and isinstance(n.value.func, ast.Attribute) \
                     and isinstance(n.value.func.value, ast.Name) and n.value.func.attr in ("append", "pop"):
                 out.add(n.value.func.value.id)
